@@ -3,6 +3,7 @@
 package prodrig
 
 import (
+	"errors"
 	"fmt"
 	"net/url"
 	"sort"
@@ -35,9 +36,12 @@ type Params struct {
 	MetaFaults      []string
 	Gates           map[string]bool // gate sites that are decision points
 	CloseAny        bool            // AsyncClose enabled at every decision point after the first submit
+	BoFunc          bool            // the back-off comes from Producer.Retry.BackoffFunc (growing with the attempt) instead of Retry.Backoff
+	SClose          bool            // the application shuts down with Close() (which drains both channels itself) instead of AsyncClose()
 	LastAfter       bool            // the last message is submitted only after the first outcome event
 	Icpt            int             // number of interceptors (counting + header-appending)
 	Pad             int             // >0: every value is padded to exactly Pad bytes ("<id>|xxx…"): record sizes at chosen points
+	BadEnc          int             // >0: the Value of message number BadEnc (1-based) is an Encoder whose Encode() fails
 	Tomb            int             // >0: message number Tomb (1-based) is a tombstone: nil Value, its id travels in the key
 	IcptPanic       int             // >0: the interceptor at this (1-based) position of the chain panics after doing its work
 	Election        bool            // partition 0 goes through a leader election (env:leader-down / env:leader-up)
@@ -64,8 +68,8 @@ func Parse(v url.Values) (*Params, error) {
 	p := &Params{
 		Idem: atoi(v, "idem", 0) == 1, RetryMax: atoi(v, "rm", 1), NMsgs: atoi(v, "nm", 2), NParts: atoi(v, "np", 1),
 		NBrokers: atoi(v, "nb", 1), FlushMsgs: atoi(v, "fm", 0), FlushMax: atoi(v, "fx", 0), FlushFreq: time.Duration(atoi(v, "ff", 0)) * time.Millisecond,
-		Backoff: time.Duration(atoi(v, "bo", 0)) * time.Millisecond, Policy: v.Get("policy"), CloseAny: atoi(v, "closeany", 0) == 1,
-		LastAfter: atoi(v, "lastafter", 0) == 1, Big: atoi(v, "big", 0), Election: atoi(v, "election", 0) >= 1, ElectionAtStart: atoi(v, "election", 0) == 2, Icpt: atoi(v, "icpt", 0), Tomb: atoi(v, "tomb", 0), Pad: atoi(v, "pad", 0), IcptPanic: atoi(v, "icptpanic", 0),
+		Backoff: time.Duration(atoi(v, "bo", 0)) * time.Millisecond, Policy: v.Get("policy"), SClose: atoi(v, "sclose", 0) == 1, BoFunc: atoi(v, "bofunc", 0) == 1, CloseAny: atoi(v, "closeany", 0) == 1,
+		LastAfter: atoi(v, "lastafter", 0) == 1, Big: atoi(v, "big", 0), Election: atoi(v, "election", 0) >= 1, ElectionAtStart: atoi(v, "election", 0) == 2, Icpt: atoi(v, "icpt", 0), Tomb: atoi(v, "tomb", 0), BadEnc: atoi(v, "badenc", 0), Pad: atoi(v, "pad", 0), IcptPanic: atoi(v, "icptpanic", 0),
 		Acks: sarama.RequiredAcks(atoi(v, "acks", 1)), Sync: atoi(v, "sync", 0),
 	}
 	if p.Policy == "" {
@@ -160,6 +164,12 @@ type seqAssign struct {
 	seq   int32
 }
 
+// failingEncoder: a user-supplied Encoder that knows its length but fails to encode.
+type failingEncoder struct{}
+
+func (failingEncoder) Encode() ([]byte, error) { return nil, errors.New("encoder failed (deliberate)") }
+func (failingEncoder) Length() int             { return 5 }
+
 type icpt struct {
 	r     *rig
 	idx   int
@@ -178,36 +188,39 @@ func (i *icpt) OnSend(m *sarama.ProducerMessage) {
 }
 
 type rig struct {
-	p         *Params
-	c         *gx.Ctl
-	cl        *simkafka.Cluster
-	mu        sync.Mutex
-	events    []event
-	icptLog   []string
-	seqEpoch  int16
-	seqLog    []seqAssign
-	subAt     []int // subAt[i]: len(events) at the moment message i was submitted
-	election  int   // 0 not started, 1 partition 0 leaderless, 2 over
-	oldLeader int32
-	submitted int
-	accepted  int
-	closing   bool
-	closedOK  bool
-	succDone  bool
-	errDone   bool
-	prod      sarama.AsyncProducer
-	client    sarama.Client
-	submitCh  chan *sarama.ProducerMessage
-	setupErr  error
-	batch     []*sarama.ProducerMessage
-	calls     int
-	sync      sarama.SyncProducer
+	p             *Params
+	c             *gx.Ctl
+	cl            *simkafka.Cluster
+	mu            sync.Mutex
+	events        []event
+	icptLog       []string
+	seqEpoch      int16
+	seqLog        []seqAssign
+	stopReaders   chan struct{}
+	readers       sync.WaitGroup
+	closeReturned bool
+	subAt         []int // subAt[i]: len(events) at the moment message i was submitted
+	election      int   // 0 not started, 1 partition 0 leaderless, 2 over
+	oldLeader     int32
+	submitted     int
+	accepted      int
+	closing       bool
+	closedOK      bool
+	succDone      bool
+	errDone       bool
+	prod          sarama.AsyncProducer
+	client        sarama.Client
+	submitCh      chan *sarama.ProducerMessage
+	setupErr      error
+	batch         []*sarama.ProducerMessage
+	calls         int
+	sync          sarama.SyncProducer
 }
 
 func msgID(i int) string { return "m" + strconv.Itoa(i) }
 
 func run(c *gx.Ctl, p *Params) *gx.Outcome {
-	r := &rig{p: p, c: c, submitCh: make(chan *sarama.ProducerMessage, 16)}
+	r := &rig{p: p, c: c, submitCh: make(chan *sarama.ProducerMessage, 16), stopReaders: make(chan struct{})}
 	cl := simkafka.New(c)
 	r.cl = cl
 	for b := 1; b <= p.NBrokers; b++ {
@@ -252,6 +265,10 @@ func run(c *gx.Ctl, p *Params) *gx.Outcome {
 	conf.Metadata.Retry.Max = 0
 	conf.Metadata.Retry.Backoff = 0
 	conf.Producer.Retry.Backoff = p.Backoff
+	if p.BoFunc {
+		conf.Producer.Retry.Backoff = 0
+		conf.Producer.Retry.BackoffFunc = func(retries, maxRetries int) time.Duration { return p.Backoff * time.Duration(retries) }
+	}
 	conf.Producer.Retry.Max = p.RetryMax
 	if p.Big > 0 {
 		conf.Producer.MaxMessageBytes = 200
@@ -296,27 +313,46 @@ func run(c *gx.Ctl, p *Params) *gx.Outcome {
 			r.setupErr = err
 			return
 		}
+		r.readers.Add(2)
 		go func() {
-			for m := range prod.Successes() {
-				id, _ := m.Metadata.(string)
-				r.mu.Lock()
-				r.events = append(r.events, event{id: id, ok: true, part: m.Partition, off: m.Offset, hdrs: m.Headers})
-				r.mu.Unlock()
+			defer r.readers.Done()
+			for {
+				select {
+				case m, ok := <-prod.Successes():
+					if !ok {
+						r.mu.Lock()
+						r.succDone = true
+						r.mu.Unlock()
+						return
+					}
+					id, _ := m.Metadata.(string)
+					r.mu.Lock()
+					r.events = append(r.events, event{id: id, ok: true, part: m.Partition, off: m.Offset, hdrs: m.Headers})
+					r.mu.Unlock()
+				case <-r.stopReaders: // sclose=1: Close() takes over both channels
+					return
+				}
 			}
-			r.mu.Lock()
-			r.succDone = true
-			r.mu.Unlock()
 		}()
 		go func() {
-			for e := range prod.Errors() {
-				id, _ := e.Msg.Metadata.(string)
-				r.mu.Lock()
-				r.events = append(r.events, event{id: id, ok: false, part: e.Msg.Partition, err: e.Err.Error()})
-				r.mu.Unlock()
+			defer r.readers.Done()
+			for {
+				select {
+				case e, ok := <-prod.Errors():
+					if !ok {
+						r.mu.Lock()
+						r.errDone = true
+						r.mu.Unlock()
+						return
+					}
+					id, _ := e.Msg.Metadata.(string)
+					r.mu.Lock()
+					r.events = append(r.events, event{id: id, ok: false, part: e.Msg.Partition, err: e.Err.Error()})
+					r.mu.Unlock()
+				case <-r.stopReaders:
+					return
+				}
 			}
-			r.mu.Lock()
-			r.errDone = true
-			r.mu.Unlock()
 		}()
 		go func() {
 			for m := range r.submitCh {
@@ -392,6 +428,9 @@ func (r *rig) actors() []gx.Actor {
 				}
 				if p.Tomb == i+1 {
 					msg.Value = nil // a tombstone (Encoder interface left nil)
+				}
+				if p.BadEnc == i+1 {
+					msg.Value = failingEncoder{} // cannot be encoded: the message must end with an error, the others are not affected
 				}
 				if p.Big == i+1 {
 					// one message larger than Producer.MaxMessageBytes: the dispatcher must reject it with an error
@@ -507,6 +546,35 @@ func (r *rig) actors() []gx.Actor {
 					_ = r.sync.Close()
 					r.mu.Lock()
 					r.succDone, r.errDone = true, true
+					r.mu.Unlock()
+				}()
+				return
+			}
+			if p.SClose {
+				// the readers stop first (the decision point is quiescent: nothing is on its way to them), then Close() drains
+				// Successes itself and hands back the errors it collected
+				close(r.stopReaders)
+				r.readers.Wait()
+				go func() {
+					err := r.prod.Close()
+					r.mu.Lock()
+					if pes, ok := err.(sarama.ProducerErrors); ok {
+						for _, pe := range pes {
+							id, _ := pe.Msg.Metadata.(string)
+							r.events = append(r.events, event{id: id, ok: false, part: pe.Msg.Partition, err: pe.Err.Error()})
+						}
+					}
+					r.closeReturned = true
+					select {
+					case _, open := <-r.prod.Successes():
+						r.succDone = !open
+					default:
+					}
+					select {
+					case _, open := <-r.prod.Errors():
+						r.errDone = !open
+					default:
+					}
 					r.mu.Unlock()
 				}()
 				return
